@@ -20,6 +20,10 @@ BUILTIN_FUNCS = {
 BUILTIN_CLASSES = {"str", "bytes", "int", "bool", "dict", "list", "tuple", "set", "frozenset", "object", "type", "float"}
 
 
+IMMUTABLE_MODULE_CTORS = ("frozenset", "tuple", "namedtuple", "datetime.timedelta", "getattr", "try_import", "str", "int", "object",
+                          "collections.namedtuple", "re.compile")
+
+
 class Interp(Engine):
 
     # ------------------------------------------------------------------ names
@@ -85,6 +89,12 @@ class Interp(Engine):
                     and len(expr.args) == 1 and isinstance(expr.args[0], ast.Constant):
                 return ModuleV(expr.args[0].value)       # optional dependency, present in this environment
             key = (mod.name, name)
+            if isinstance(expr, ast.Call) and not (isinstance(expr.func, ast.Name) and expr.func.id in mod.classes):
+                fn = ast.unparse(expr.func)
+                if fn not in IMMUTABLE_MODULE_CTORS and self.repo.lookup(mod, fn.split(".")[0]) is not None \
+                        and self.repo.lookup(mod, fn.split(".")[0])[0] in ("ext", "module") and ("%s.%s" % key) not in self.reg.shared_state:
+                    # X = unittest.TestSuite() at module level: one mutable object shared by every call -- not a constant
+                    self.unsupported(node, "module-level object %s.%s = %s is shared mutable state (not modelled)" % (mod.name, name, ast.unparse(expr)[:60]))
             if key not in self.global_cache:
                 self.global_cache[key] = self.eval_const(expr, mod, node)
             return self.global_cache[key]
